@@ -14,7 +14,7 @@ pub fn def() -> PropDef {
         job_level,
         run_job,
         replay,
-        rule: "complete finite spaces: (a) all 65536 u16 values through OsCode::from_u16/as_u16 (round trip is the identity; nothing above KEY_MAX is a key); (b) the discriminant sets of `enum OsCode` (parser/src/keys/mod.rs) and `enum KeyCode` (keyberon/src/key_code.rs) read from the SOURCE TEXT of the working tree are equal value for value (soundness of the transmute), and every `N => Some(OsCode::X)` arm of from_u16_linux agrees with X's discriminant; (c) every key name in the match arms of str_to_oscode (scraped from source): same code through the real function, and through a real config `(defsrc NAME)(deflayer l NAME)` pressing that code outputs that code; (d) every code 0..767 through the full pipeline in three configs: mapped to itself (named via deflocalkeys when it has no name), transparent on a held second layer, and unmapped with process-unmapped-keys yes: press/release, the OS code that comes out equals the one that went in, reserved no-op codes 0x2a4..0x2ad are never sent; (e) mapped-key sets: all defsrc subsets of a 4-key pool x deflayermap inputs subsets of 2 keys x exception lists subsets of 2 keys x process-unmapped-keys {no, yes, all-except}: Cfg.mapped_keys == defsrc + deflayermap inputs (+ all known keys - exceptions). distinct = distinct (case, outcome) classes.",
+        rule: "complete finite spaces: (a) all 65536 u16 values through OsCode::from_u16/as_u16 (round trip is the identity; nothing above KEY_MAX is a key); (b) the discriminant sets of `enum OsCode` (parser/src/keys/mod.rs) and `enum KeyCode` (keyberon/src/key_code.rs) read from the SOURCE TEXT of the working tree are equal value for value (soundness of the transmute), and every `N => Some(OsCode::X)` arm of from_u16_linux agrees with X's discriminant; (c) every key name in the match arms of str_to_oscode (scraped from source): same code through the real function, and through a real config `(defsrc NAME)(deflayer l NAME)` pressing that code outputs that code; (d) every code 0..767 through the full pipeline in three configs: mapped to itself (named via deflocalkeys when it has no name), transparent on a held second layer, and unmapped with process-unmapped-keys yes: press, one OS auto-repeat, release: the OS code that comes out (press, forwarded repeat, release) equals the one that went in, reserved no-op codes 0x2a4..0x2ad are never sent; (e) mapped-key sets: all defsrc subsets of a 4-key pool x deflayermap inputs subsets of 2 keys x exception lists subsets of 2 keys x process-unmapped-keys {no, yes, all-except}: Cfg.mapped_keys == defsrc + deflayermap inputs (+ all known keys - exceptions). distinct = distinct (case, outcome) classes.",
         assumptions: &["the OS-level pass-through branch of event_loop (evdev) is not executed; the set it consults (mapped keys) is what is checked", "Linux code space (the build target)"],
         required_level,
         min_outcomes: 3,
@@ -201,7 +201,8 @@ fn press_release(cfg: &str, pre: &[Ev], code: u16) -> Result<Vec<Out>, String> {
     let mut s = Sim::new(cfg)?;
     s.run(pre)?;
     let n0 = s.n_out();
-    s.run(&[Ev::P(code), Ev::T(2), Ev::R(code), Ev::T(3)])?;
+    // press, one OS auto-repeat while held, release (a forwarded repeat is rendered as a second ↓)
+    s.run(&[Ev::P(code), Ev::T(2), Ev::Rep(code), Ev::T(1), Ev::R(code), Ev::T(3)])?;
     Ok(crate::sim::parse_outputs(&s.raw_outputs()[n0..]).into_iter().map(|(_, o)| o).collect())
 }
 
@@ -241,7 +242,7 @@ fn job_names(st: &mut Stats) {
                 if c == 0 {
                     continue;
                 }
-                let expect: Vec<Out> = if ignored || KeyCode::from(o) == KeyCode::No { vec![] } else { vec![Out::Down(want.clone()), Out::Up(want.clone())] };
+                let expect: Vec<Out> = if ignored || KeyCode::from(o) == KeyCode::No { vec![] } else { vec![Out::Down(want.clone()), Out::Down(want.clone()), Out::Up(want.clone())] };
                 if outs != expect {
                     st.violation(viol("name-identity", format!("key name {n:?} (code {c}) written in defsrc and deflayer: pressing it outputs {outs:?}, expected {expect:?}"), &cfg));
                     return;
@@ -293,7 +294,7 @@ fn job_codes(variant: usize, st: &mut Stats) {
                     st.count(&format!("codes{variant}_mouse(skipped)"), 1);
                     continue;
                 }
-                let expect: Vec<Out> = if ignored { vec![] } else { vec![Out::Down(want.clone()), Out::Up(want.clone())] };
+                let expect: Vec<Out> = if ignored { vec![] } else { vec![Out::Down(want.clone()), Out::Down(want.clone()), Out::Up(want.clone())] };
                 if outs != expect {
                     st.violation(viol(&format!("code-identity/{}", ["self", "transparent", "unmapped"][variant]), format!("code {c} ({want}): pressing it outputs {outs:?}, expected {expect:?}"), &cfg));
                     return;
